@@ -148,6 +148,21 @@ enum Stack<T> {
     Node(Box<(T, Stack<T>)>),
 }
 use Stack::{Empty, Node};
+impl<T> Drop for Stack<T> {
+    /// Unlink the nodes one by one:
+    /// the compiler-generated drop glue would recurse once per node,
+    /// i.e. once per quoted triple of the statement (not once per nesting level).
+    fn drop(&mut self) {
+        let Node(b) = self else {
+            return;
+        };
+        let mut next = std::mem::replace(&mut b.1, Empty);
+        while let Node(b) = &mut next {
+            let tail = std::mem::replace(&mut b.1, Empty);
+            next = tail;
+        }
+    }
+}
 impl<T> Stack<T> {
     /// Get the triple at the head of the stack.
     const fn head(&self) -> Option<&T> {
